@@ -374,7 +374,6 @@ DERIVED = {
     "QueryRBGWAFControlResponse": [("control_type", lambda v: ["channel control", "colour control", "normalised colour control",
                                                                 "(error)"][(v >> 6) & 3])],
     "QueryStatusResponse": [("error", lambda v: bool(v & 0b01000011))],
-    "FeaturesByte3Response": [("dimming_method", lambda v: ["leading & trailing", "leading only", "trailing only", "sine wave"][v & 3])],
     "QueryFadeTimeAndRateResponse": [("fade_time", lambda v: v >> 4), ("fade_rate", lambda v: v & 15)],
     "QueryEmergencyModeResponse": [("mode", lambda v: ",".join(
         n for i, n in enumerate(["rest mode", "normal mode", "emergency mode", "extended emergency mode", "function test",
